@@ -1,4 +1,4 @@
-//! unit: {"container": "impl M128", "file": "src/ecm128.rs", "hoist": true, "kind": "fn", "name": "mul", "props": ["C07", "C03"]}
+//! unit: {"container": "impl M128", "file": "src/ecm128.rs", "hoist": true, "kind": "fn", "name": "mul", "props": ["C07", "C03", "C15"]}
 //! ---- pinned ----
     fn mul(n: u128, ninv: u128, x: M128, y: M128) -> M128 {
         if n >> 64 == 0 {
